@@ -15,7 +15,7 @@ ID = "C13"
 LEVEL = "exploration"
 RULE = ("random histories (10-60 steps) over a class hierarchy (Person > Employee > Manager, Org > Dept, Chief role) of "
         "{create, drop reference, gc, relate, query with a fresh query, build a query and evaluate it later, "
-        "re-evaluate an old query, forget all queries (the harness also empties krrood's process-wide query registries so "
+        "create / drop 8-70 instances at once, re-evaluate an old query, forget all queries (the harness also empties krrood's process-wide query registries so "
         "that dropped instances can really die), SymbolGraph().clear() + re-create}.  Non-trivial = the history contains a drop+gc "
         "that reclaims an instance before a later query, or a clear; distinct = the operation-kind sequence (with the "
         "queried type)")
@@ -33,7 +33,7 @@ def plan(tier):
     return {"cases": 2000 if tier == "quick" else 50000, "shards": 16, "case_timeout": 60, "shard_timeout": 3000,
             "min_nontrivial": 100,
             "min_counters": {"queries_checked": 5000, "instances_reclaimed": 1000,
-                             "clears": 100, "reevaluations": 500}}
+                             "clears": 100, "reevaluations": 500, "bulk_dropped": 2000}}
 
 
 def setup(ctx):
@@ -61,6 +61,17 @@ def gen(rng, tier, ctx):
             steps.append(["q_eval", rng.randrange(1000)])
         else:
             steps.append([op])
+    if rng.random() < 0.25:
+        # a whole world is created and dropped at once (many instances die between two evaluations), new instances
+        # are created before the next query sees the graph
+        classes = ["Person", "Employee", "Manager", "Org", "Dept", "Volunteer"]
+        at = rng.randrange(len(steps) + 1)
+        bulk = [["create_many", rng.choice(classes), rng.choice([8, 20, 33, 40, 70])] for _ in range(rng.randint(1, 2))]
+        bulk += [["q_new", rng.choice(classes)]] * rng.choice([0, 1])
+        bulk += [["drop_many", rng.choice([0.5, 0.9, 1.0])], ["gc"]]
+        bulk += [["create", rng.choice(classes)] for _ in range(rng.randint(1, 12))]
+        bulk += [["q_new", rng.choice(["Person", "Org"])]]
+        steps[at:at] = bulk
     steps.append(["gc"])
     steps.append(["q_new", "Person"])
     steps.append(["q_new", "Org"])
@@ -190,6 +201,23 @@ def run(spec, ctx):
             strong[name] = obj
             census[name] = weakref.ref(obj)
             shape.append("c")
+        elif op == "create_many":
+            for _ in range(step[2]):
+                seq += 1
+                name = f"{step[1]}{seq}"
+                obj = om.ALL_CLASSES[step[1]](name)
+                strong[name] = obj
+                census[name] = weakref.ref(obj)
+            del obj
+            C["bulk_created"] += step[2]
+            shape.append("C%d" % step[2])
+        elif op == "drop_many":
+            names = sorted(strong)
+            victims = names[:int(len(names) * step[1])] if step[1] < 1.0 else names
+            for name in victims:
+                del strong[name]
+            C["bulk_dropped"] += len(victims)
+            shape.append("D")
         elif op == "drop":
             if strong:
                 name = sorted(strong)[step[1] % len(strong)]
